@@ -200,6 +200,8 @@ class RngWatch:
     def __init__(self):
         self.legacy = {}     # caller -> count
         self.default_rng = {}
+        self.entropy = {}    # default_rng() without a seed: fresh OS entropy
+        self.seeded = {}     # default_rng(<explicit seed>): deterministic
 
     def __enter__(self):
         self.saved = {}
@@ -225,6 +227,9 @@ class RngWatch:
             c = _teneva_caller()
             if c:
                 self.default_rng[c] = self.default_rng.get(c, 0) + 1
+                sd = a[0] if a else k.get('seed')
+                tgt = self.entropy if sd is None else self.seeded
+                tgt[c] = tgt.get(c, 0) + 1
             return odr(*a, **k)
         np.random.default_rng = dr
         return self
